@@ -1,5 +1,6 @@
 //! Verification hooks (cargo feature `verif`, off by default): scheduling points in
-//! `StorageResolver::get` and a counter of bytes produced by stream filters.
+//! `StorageResolver::get`, a mutex whose blocking a controlled scheduler can see, and a counter
+//! of bytes produced by stream filters.
 //! All of this is inert unless a handler is installed by a test harness.
 use std::sync::atomic::{AtomicU64, AtomicUsize, Ordering};
 
@@ -14,6 +15,108 @@ pub const GET_PUSHED: u32 = 2;
 pub const GET_COMPUTED: u32 = 3;
 /// in the drop guard, before the key is popped
 pub const GET_POP: u32 = 4;
+/// inside a critical section of the guard stack's mutex, right after the lock was taken
+pub const LOCK_HELD: u32 = 5;
+
+/// lock events (second handler): the calling thread found the mutex taken / a mutex was released
+pub const EV_WOULD_BLOCK: u32 = 1;
+pub const EV_RELEASED: u32 = 2;
+static LOCK_HANDLER: AtomicUsize = AtomicUsize::new(0);
+/// `f(EV_WOULD_BLOCK, lock)` parks the calling thread until the lock is released and returns true, or returns false
+/// when the thread is not under the harness's control (the caller then blocks on the real mutex)
+pub fn set_lock_handler(f: Option<fn(u32, usize) -> bool>) {
+    LOCK_HANDLER.store(f.map(|f| f as usize).unwrap_or(0), Ordering::SeqCst);
+}
+fn lock_event(ev: u32, lock: usize) -> bool {
+    let h = LOCK_HANDLER.load(Ordering::SeqCst);
+    if h != 0 {
+        let f: fn(u32, usize) -> bool = unsafe { std::mem::transmute(h) };
+        f(ev, lock)
+    } else {
+        false
+    }
+}
+
+/// `std::sync::Mutex` with the same interface whose blocking is visible to a controlled scheduler: a thread can be
+/// preempted inside a critical section (`LOCK_HELD`), and a thread that finds the mutex taken is parked by the
+/// harness instead of by the operating system. Without handlers it behaves exactly like the std mutex.
+pub struct Mutex<T>(std::sync::Mutex<T>);
+pub struct MutexGuard<'a, T> {
+    guard: Option<std::sync::MutexGuard<'a, T>>,
+    lock: usize,
+}
+impl<T> Mutex<T> {
+    pub const fn new(t: T) -> Self {
+        Mutex(std::sync::Mutex::new(t))
+    }
+    fn id(&self) -> usize {
+        self as *const _ as usize
+    }
+    pub fn lock(&self) -> std::sync::LockResult<MutexGuard<'_, T>> {
+        use std::sync::{PoisonError, TryLockError};
+        let lock = self.id();
+        loop {
+            match self.0.try_lock() {
+                Ok(g) => {
+                    let guard = MutexGuard { guard: Some(g), lock };
+                    point(LOCK_HELD);
+                    return Ok(guard);
+                }
+                Err(TryLockError::Poisoned(p)) => return Err(PoisonError::new(MutexGuard { guard: Some(p.into_inner()), lock })),
+                Err(TryLockError::WouldBlock) => {
+                    if !lock_event(EV_WOULD_BLOCK, lock) {
+                        return match self.0.lock() {
+                            Ok(g) => Ok(MutexGuard { guard: Some(g), lock }),
+                            Err(p) => Err(PoisonError::new(MutexGuard { guard: Some(p.into_inner()), lock })),
+                        };
+                    }
+                }
+            }
+        }
+    }
+    pub fn try_lock(&self) -> std::sync::TryLockResult<MutexGuard<'_, T>> {
+        use std::sync::{PoisonError, TryLockError};
+        let lock = self.id();
+        match self.0.try_lock() {
+            Ok(g) => {
+                let guard = MutexGuard { guard: Some(g), lock };
+                point(LOCK_HELD);
+                Ok(guard)
+            }
+            Err(TryLockError::Poisoned(p)) => Err(TryLockError::Poisoned(PoisonError::new(MutexGuard { guard: Some(p.into_inner()), lock }))),
+            Err(TryLockError::WouldBlock) => Err(TryLockError::WouldBlock),
+        }
+    }
+    pub fn is_poisoned(&self) -> bool {
+        self.0.is_poisoned()
+    }
+    pub fn clear_poison(&self) {
+        self.0.clear_poison()
+    }
+    pub fn get_mut(&mut self) -> std::sync::LockResult<&mut T> {
+        self.0.get_mut()
+    }
+    pub fn into_inner(self) -> std::sync::LockResult<T> {
+        self.0.into_inner()
+    }
+}
+impl<T> std::ops::Deref for MutexGuard<'_, T> {
+    type Target = T;
+    fn deref(&self) -> &T {
+        self.guard.as_ref().unwrap()
+    }
+}
+impl<T> std::ops::DerefMut for MutexGuard<'_, T> {
+    fn deref_mut(&mut self) -> &mut T {
+        self.guard.as_mut().unwrap()
+    }
+}
+impl<T> Drop for MutexGuard<'_, T> {
+    fn drop(&mut self) {
+        self.guard.take();
+        lock_event(EV_RELEASED, self.lock);
+    }
+}
 
 pub fn set_handler(f: Option<fn(u32)>) {
     HANDLER.store(f.map(|f| f as usize).unwrap_or(0), Ordering::SeqCst);
